@@ -33,6 +33,7 @@ use crate::error::Error;
 use crate::utils::init;
 
 use super::{EitherIter, FromTLV, TLVElement, TLVSequenceIter, TLVTag, TLVWrite, ToTLV, TLV};
+use crate::tlv::TLVSequence;
 
 /// A type-state that indicates that the container can be any type of container (array, list or struct).
 pub type AnyContainer = ();
@@ -91,6 +92,12 @@ where
 
     /// Returns an iterator over the elements of the container.
     pub fn iter(&self) -> TLVContainerIter<'a, T> {
+        if self.element.is_empty() {
+            // An empty element stands for an absent (optional) container,
+            // as accepted by the `new` constructors: it has no elements
+            return TLVContainerIter::new(TLVSequence(&[]).iter());
+        }
+
         TLVContainerIter::new(unwrap!(self.element.container()).iter())
     }
 }
